@@ -20,6 +20,13 @@ equivalent to the original; generic print -> parse -> equivalent; for the genera
 declarative-format operations AND for every verified chunk of the .mlir corpus as a whole (all
 operations, including the hand-written print/parse overrides, which are NOT modelled and NOT claimed
 as proved).
+VALUES (oracle only): on every operation with a custom format (declarative, covered or not, and
+hand-written) that holds an integer dense array treated as plain data by its format, a symbol name or
+a symbol reference, the value is replaced in place in its verified corpus module by boundary values
+(negative / MIN / MAX / 0 elements, booleans for i1; symbol names with non-ASCII letters and digits,
+spaces, punctuation, empty, keyword-like, leading digits, quotes, backslashes), the module is
+re-verified and round-tripped as a whole (modules that do not round-trip unmutated are family B's).
+The same value mutations are part of the generated instances of the covered operations (model + oracle).
 Non-trivial: a case whose operation has an optional group, a variadic/optional operand or result, a
 default-valued or unit property, or an inferred type; distinct = (operation, shape of the instance).
 """
@@ -878,6 +885,54 @@ def real_equiv(info: OpInfo, a, ablock, b, bblock) -> tuple[bool, str]:
     return True, ""
 
 
+
+# ------------------------------------------------------------------------------------------------
+# boundary values for the attribute kinds that have their own short syntax in custom formats
+
+SYM_VARIANTS = ["caf\u00e9", "gr\u00f6\u00dfe", "\u03c0", "x\u00b2", "a b", "a.b", "a-b", "a$b", "", "func", "i32", "true",
+                "1abc", "42", "x\"y", "a\\b", "_", "A_z.9$"]
+
+
+def dense_variants(a):
+    """same-length DenseArrayBase values with negative / boundary elements, or [] when `a` is not an
+    integer dense array"""
+    from xdsl.dialects.builtin import DenseArrayBase, IntegerType
+    if not isinstance(a, DenseArrayBase) or not isinstance(a.elt_type, IntegerType):
+        return []
+    w = a.elt_type.width.data
+    n = len(a.get_values())
+    if n == 0:
+        return []
+    if w == 1:
+        pats = [[0], [1], [1, 0], [-1]]
+    else:
+        lo, hi = -(1 << (w - 1)), (1 << (w - 1)) - 1
+        pats = [[-1], [0, -1], [lo], [hi], [lo, -1, 0, 1, hi], [0], [-2, 3]]
+    out = []
+    for pat in pats:
+        vals = [pat[k % len(pat)] for k in range(n)]
+        try:
+            out.append(DenseArrayBase.from_list(a.elt_type, vals))
+        except BaseException:
+            continue
+    return out
+
+
+def value_variant(cur, kind, k):
+    """the k-th variant of the current value, or None when not applicable"""
+    from xdsl.dialects.builtin import StringAttr, SymbolRefAttr
+    if kind == "dense":
+        vs = dense_variants(cur)
+        return vs[k % len(vs)] if vs else None
+    if kind == "sym":
+        name = SYM_VARIANTS[k % len(SYM_VARIANTS)]
+        if isinstance(cur, StringAttr):
+            return StringAttr(name)
+        if isinstance(cur, SymbolRefAttr):
+            return SymbolRefAttr(name, list(cur.nested_references.data)) if len(cur.nested_references.data) else SymbolRefAttr(name)
+    return None
+
+
 # ------------------------------------------------------------------------------------------------
 # instance sources: the corpus + mutations
 
@@ -958,6 +1013,11 @@ def mutate(info: OpInfo, op, steps):
                 del props[n]
             elif how == "unit":
                 props[n] = UnitAttr()
+            elif isinstance(how, list):
+                nv = value_variant(props.get(n), how[0], how[1]) if n in props else None
+                if nv is None or nv == props[n]:
+                    raise NotApplicable
+                props[n] = nv
             else:
                 pl = pools.get((op.name, n), [])
                 if not pl:
@@ -971,9 +1031,10 @@ def mutate(info: OpInfo, op, steps):
                     raise NotApplicable
                 attrs["operandSegmentSizes"] = DenseArrayBase.from_list(i32, [len(s) for s in osegs])
             elif st[1] == "propname":
-                if not od.properties:
+                names = sorted(n for n in od.properties if n not in info.hidden_props)
+                if not names:
                     raise NotApplicable
-                attrs[sorted(od.properties)[0]] = IntegerAttr(7, i32)
+                attrs[names[(st[2] if len(st) > 2 else 0) % len(names)]] = IntegerAttr(7, i32)
             else:
                 raise NotApplicable
         else:
@@ -1044,11 +1105,36 @@ def mutation_menu(info: OpInfo):
         if optional or dv is not None:
             out.append([["prop", n, "drop"]])
         out += [[["prop", n, k]] for k in range(3)]
+        kind = value_kind(info, n)
+        if kind == "dense":
+            out += [[["prop", n, ["dense", k]]] for k in range(7)]
+        elif kind == "sym":
+            out += [[["prop", n, ["sym", k]]] for k in range(len(SYM_VARIANTS))]
     out.append([["attr", "extra"]])
     out.append([["attr", "segsz"]])
-    if info.props:
-        out.append([["attr", "propname"]])
+    for k in range(min(3, len(info.props))):
+        out.append([["attr", "propname", k]])
     return out
+
+
+def value_kind(info: OpInfo, n: str):
+    """'dense' / 'sym' when the property is a dense integer array / a symbol name or reference"""
+    from xdsl.dialects.builtin import DenseArrayBase, StringAttr, SymbolRefAttr
+    from xdsl.irdl import declarative_assembly_format as D
+    d = info.short_names.get((True, n))
+    if isinstance(d, D.DenseArrayAttributeVariable):
+        return "dense"
+    if isinstance(d, D.SymbolNameAttributeVariable):
+        return "sym"
+    try:
+        bases = info.od.properties[n].constr.get_bases()
+    except BaseException:
+        bases = None
+    if bases == {DenseArrayBase}:
+        return "dense"
+    if bases == {SymbolRefAttr} or (bases == {StringAttr} and n == "sym_name"):
+        return "sym"
+    return None
 
 
 # ------------------------------------------------------------------------------------------------
@@ -1236,6 +1322,9 @@ def gen_cases(ctx: Ctx, per_op_mut: int, ops_limit: int | None):
         rng.shuffle(menu)
         # the mutations that exercise optional groups / unit and default-valued properties come first
         prio = [m for m in menu if m[0][0] == "prop" and m[0][2] in ("unit", "default")]
+        vm = [m for m in menu if m[0][0] == "prop" and isinstance(m[0][2], list)]
+        # a negative dense-array element / a non-ASCII-letter symbol name always, then other boundary values
+        prio += [m for m in vm if m[0][2][1] == (0 if m[0][2][0] == "dense" else rng.randrange(3))][:2] + vm[:2]
         prio += [m for m in menu if m[0][0] in ("oper", "res") and m[0][2] in (0, 1)][:2]
         others = [m for m in menu if m not in prio]
         for mut in (prio + others)[:max(per_op_mut, min(len(prio), per_op_mut + 2))]:
@@ -1601,6 +1690,30 @@ def _is_function_type_result(case, real):
     return len(tys) == 1 and isinstance(table.entry(tys[0])[0], FunctionType)
 
 
+def _attr_named_like_property_observed(case, real) -> bool:
+    """C05-kf-2 class, by the behaviour OBSERVED on the unchanged tree for a discardable attribute named like a
+    property NAME of the operation: (a) NAME is printed inside attr-dict (ParsePropInAttrDict) and the custom
+    printing raises the deliberate ValueError, or (b) the custom form keeps the attribute (or reads it back as
+    the property) and the parser(s) turn it into the property: `properties differ` on NAME in the custom or in
+    the generic round trip.  Anything else on these inputs (attribute silently dropped, parse error ...) is not
+    in the class."""
+    steps = [st for st in case.get("mut", []) if st[0] == "attr" and st[1] == "propname"]
+    if not steps:
+        return False
+    info = real["info"]
+    names = sorted(n for n in info.od.properties if n not in info.hidden_props)
+    if not names:
+        return False
+    name = names[(steps[0][2] if len(steps[0]) > 2 else 0) % len(names)]
+    if real["print_error"] is not None:
+        expected = next((d[1][3] for d in info.fmt if d[0] == "DE" and d[1][0] == "EAttrDict"), [])
+        return (name in expected and real["print_error"].startswith(
+            "ValueError: Cannot print attributes and properties with the same name"))
+    if not real["custom_ok"]:
+        return (real["custom_why"] or "").startswith("properties differ: [('%s'" % name)
+    return (real["generic_why"] or "").startswith("properties differ: [('%s'" % name)
+
+
 def _opt_attr_before_dict(info: OpInfo):
     """(isprop, name, reserved, expected) when the format has an OPTIONAL attribute variable in full syntax
     (parse_optional_attribute) whose next element is an attr-dict without keyword -- as the only element of an
@@ -1644,7 +1757,7 @@ KNOWN_CLASSES += [
     ("C05-kf-1", lambda c, r: _has_step(c, "attr", "segsz")
         and "operandSegmentSizes" not in r["info"].hidden
         and (r["custom_why"] or "").startswith("attributes differ: [('operandSegmentSizes'")),
-    ("C05-kf-2", lambda c, r: _has_step(c, "attr", "propname")),
+    ("C05-kf-2", lambda c, r: _attr_named_like_property_observed(c, r)),
     ("C05-kf-3", lambda c, r: c["op"] == "pdl.replace" and c["follower"] == "val"
         and not r["inst"]["operands"][[n for n, _ in r["info"].od.operands].index("repl_operation")]),
     ("C05-kf-4", lambda c, r: _optional_attr_swallows_dict(c, r)),
@@ -1730,6 +1843,9 @@ def run(ctx: Ctx):
                                                  4: "attribute/property bookkeeping"}[c] for n, c in sorted(notshown.items())}
     # family B
     family_corpus(ctx, None if thorough else 160)
+    # family C
+    replay_findings(ctx, "attribute-values", value_replay_impl, value_holds)
+    family_values(ctx, 1200 if thorough else 160)
     ctx.coverage["rule"] = __doc__.split("\n\n", 1)[1][:1800] if "\n\n" in __doc__ else __doc__[:1800]
     ctx.coverage["exhaustive"] = False
 
@@ -1753,3 +1869,233 @@ def replay_case(ctx: Ctx, witness: dict) -> int:
         why = r["custom_why"] or r["generic_why"]
     print("oracle:", "holds" if ok else f"FAILS: {why}")
     return 0 if ok else 1
+
+
+# ------------------------------------------------------------------------------------------------
+# family C: boundary values of dense-array / symbol attributes on EVERY operation with a custom format
+# (declarative -- covered or not -- and hand-written), mutated in place in its verified corpus module;
+# oracle only (whole-module custom and generic round trip)
+
+_VALUE_SITES = None
+
+
+def value_sites():
+    """every (chunk, walk index, op name, 'prop'|'attr', name, kind) of the verified corpus where an operation
+    that has a custom format holds an integer dense array / a symbol name / a symbol reference"""
+    global _VALUE_SITES
+    if _VALUE_SITES is not None:
+        return _VALUE_SITES
+    from xdsl.dialects.builtin import DenseArrayBase, IntegerType, StringAttr, SymbolRefAttr
+    chunks, _ = corpus_chunks()
+    _, _, classes = translate_all()
+    out = []
+    for cn, (_, _, _, m) in enumerate(chunks):
+        for wi, op in enumerate(m.walk()):
+            if classes.get(op.name) not in ("declarative", "hand-written"):
+                continue
+            for where, dct in (("prop", op.properties), ("attr", op.attributes)):
+                for n, a in dct.items():
+                    if isinstance(a, DenseArrayBase) and isinstance(a.elt_type, IntegerType):
+                        if dense_site_ok(op, where, n):
+                            out.append((cn, wi, op.name, where, n, "dense"))
+                    elif isinstance(a, SymbolRefAttr) or (isinstance(a, StringAttr) and n == "sym_name"):
+                        out.append((cn, wi, op.name, where, n, "sym"))
+    _VALUE_SITES = out
+    return out
+
+
+_DENSE_OK: dict = {}
+
+
+def dense_site_ok(op, where, n) -> bool:
+    """a dense integer array may take arbitrary element values only where the FORMAT treats it as plain data: a
+    property/attribute of a declarative operation that is printed by a DenseArray / plain attribute variable or
+    inside attr-dict.  Arrays consumed by custom directives or hand-written print/parse (static sizes with a
+    dynamic sentinel, segment tables, positions) are coupled to operands in ways the verifier does not check."""
+    key = (op.name, where, n)
+    if key in _DENSE_OK:
+        return _DENSE_OK[key]
+    from xdsl.irdl import IRDLOperation
+    from xdsl.irdl import declarative_assembly_format as D
+    ok = False
+    cls = type(op)
+    if issubclass(cls, IRDLOperation) and n not in ("operandSegmentSizes", "resultSegmentSizes"):
+        od = cls.get_irdl_definition()
+        if od.assembly_format is not None:
+            try:
+                prog = D.FormatProgram.from_str(od.assembly_format, od)
+            except BaseException:
+                prog = None
+            if prog is not None:
+                bound_plain, bound_other, custom = [], [], [False]
+
+                def walk(x):
+                    if isinstance(x, D.OptionalGroupDirective):
+                        for y in (x.then_first, *x.then_elements, *x.else_elements):
+                            walk(y)
+                    elif isinstance(x, D.CustomDirective):
+                        custom[0] = True
+                    elif isinstance(x, D.AttributeVariable) and x.name == n and bool(x.is_property) == (where == "prop"):
+                        (bound_plain if type(x) in (D.AttributeVariable, D.DenseArrayAttributeVariable) else bound_other).append(x)
+                for st in prog.stmts:
+                    walk(st)
+                ok = bool(bound_plain) or (not bound_other and not custom[0])
+    _DENSE_OK[key] = ok
+    return ok
+
+
+_BASELINE: dict = {}
+
+
+def baseline_failure(cn, generic):
+    """round-trip failure of the UNMUTATED corpus module (those are family B's business)"""
+    key = (cn, generic)
+    if key not in _BASELINE:
+        r = roundtrip_module(corpus_chunks()[0][cn][3], generic)
+        _BASELINE[key] = None if r is None else f"{r[0]}: {r[1]}"
+    return _BASELINE[key]
+
+
+def value_impl(case):
+    """-> [verified, custom failure or "", generic failure or ""]"""
+    cn, wi = case["at"]
+    if case.get("src") is not None:
+        from xdsl.parser import Parser
+        m2 = Parser(new_context(), case["src"]).parse_module()
+        m2.verify()
+    else:
+        m2 = corpus_chunks()[0][cn][3].clone()
+    op = nth_op(m2, wi)
+    if op.name != case["op"]:
+        raise NotApplicable
+    dct = op.properties if case["where"] == "prop" else op.attributes
+    nv = value_variant(dct.get(case["name"]), case["kind"], case["variant"])
+    if nv is None or nv == dct[case["name"]]:
+        raise NotApplicable
+    dct[case["name"]] = nv
+    try:
+        m2.verify()
+    except BaseException:
+        return [0, "", "", ""]
+    out = [1]
+    for generic in ((False, True) if case.get("both", True) else (False,)):
+        if case.get("src") is None and baseline_failure(cn, generic) is not None:
+            out.append("")          # the module does not round-trip even unmutated: not attributable
+            continue
+        r = roundtrip_module(m2, generic)
+        out.append("" if r is None else f"{r[0]}: {r[1]}")
+    s = io.StringIO()
+    try:
+        from xdsl.printer import Printer
+        Printer(stream=s).print_op(op)
+    except BaseException:
+        pass
+    if len(out) == 2:
+        out.append("")
+    out.append(s.getvalue()[:300])
+    return out
+
+
+def family_values(ctx: Ctx, limit: int):
+    t0 = time.time()
+    rng = ctx.rng
+    sites = value_sites()
+    # one site per (operation, name) first, so that every operation/attribute pair is exercised, then random ones
+    by_key = {}
+    for sidx, st in enumerate(sites):
+        by_key.setdefault((st[2], st[4], st[5]), []).append(sidx)
+    keys = sorted(by_key)
+    rng.shuffle(keys)
+    chunks, _ = corpus_chunks()
+    size = {}
+
+    def small(k):
+        # one of the three smallest modules that hold such a site (the whole module is printed and parsed)
+        c = sorted(by_key[k], key=lambda sidx: size.setdefault(sites[sidx][0], sum(1 for _ in chunks[sites[sidx][0]][3].walk())))
+        return rng.choice(c[:3])
+    picks = []
+    for k in keys:
+        if k[2] == "sym":      # a non-ASCII letter name (a Python identifier, not an MLIR one) + any other odd name
+            vs = [rng.randrange(3), rng.randrange(3, len(SYM_VARIANTS))]
+        else:                  # a pattern with a negative element + any other boundary pattern
+            vs = [rng.choice([0, 1, 2, 4, 6]), rng.randrange(7)]
+        picks += [(small(k), v) for v in vs]
+    extra = [(rng.randrange(len(sites)), rng.randrange(18)) for _ in range(max(0, limit - len(picks)))]
+    picks = (picks + extra)[:limit]
+    both = ctx.tier == "thorough"        # the generic form of the mutated module only in the thorough tier
+    active = ctx.active_known_ids()
+    fails, known_hits, stats = [], {}, {"cases": 0, "verified": 0, "not_applicable": 0, "dense": 0, "sym": 0}
+    ops = set()
+    for sidx, variant in picks:
+        cn, wi, opname, where, n, kind = sites[sidx]
+        case = {"at": [cn, wi], "op": opname, "where": where, "name": n, "kind": kind, "variant": variant, "both": both}
+        try:
+            res = value_impl(case)
+        except NotApplicable:
+            stats["not_applicable"] += 1
+            continue
+        stats["cases"] += 1
+        ctx.evaluations += 1
+        if not res[0]:
+            continue
+        stats["verified"] += 1
+        stats[kind] += 1
+        ops.add(opname)
+        ctx.nontrivial.add(("values", repr((opname, n, kind, variant))))
+        for generic, why in ((False, res[1]), (True, res[2])):
+            if not why:
+                continue
+            c2 = dict(case, generic=generic, what=why, text=res[3])
+            kid = known_value_class(c2)
+            if kid and kid in active:
+                known_hits[kid] = known_hits.get(kid, 0) + 1
+            else:
+                fails.append((c2, why))
+    fam = dict(stats, sites=len(sites), distinct_site_kinds=len(by_key), ops_with_verified_cases=len(ops),
+               oracle_failures=len(fails), known_finding_hits=known_hits, wall_s=round(time.time() - t0, 2))
+    ctx.coverage.setdefault("families", {})["attribute-values-all-custom-format-ops(oracle only)"] = fam
+    ctx._c05_value_fails = fails
+    if fails:
+        fails.sort(key=lambda x: len(json.dumps(to_jsonable(x[0]))))
+        c, why = fails[0]
+        ctx.violation({"family": "attribute-values", "case": c, "oracle": why, "other_failing_cases": len(fails) - 1,
+                       "other_failing": sorted({(x[0]["op"], x[0]["name"], x[0]["kind"]) for x in fails})[:40]})
+    return fam
+
+
+def known_value_class(case) -> str | None:
+    for kid, pred in KNOWN_VALUE_CLASSES:
+        try:
+            if pred(case):
+                return kid
+        except BaseException:
+            continue
+    return None
+
+
+def _needs_quotes(case) -> bool:
+    from xdsl.utils.mlir_lexer import MLIRLexer
+    name = SYM_VARIANTS[case["variant"] % len(SYM_VARIANTS)]
+    return MLIRLexer.bare_identifier_regex.fullmatch(name) is None
+
+
+KNOWN_VALUE_CLASSES: list = [
+    # hand-written printers that write `@` + the raw symbol text
+    ("C05-kf-13", lambda c: c["op"] in ("ml_program.global", "pdl.pattern") and c["name"] == "sym_name"
+        and c["kind"] == "sym" and not c["generic"] and _needs_quotes(c)
+        and c["what"].startswith(c["op"] + ": parsing raises ParseError")),
+]
+
+
+def value_replay_impl(w):
+    try:
+        return value_impl(w)
+    except NotApplicable:
+        return [0, "", "", ""]
+
+
+def value_holds(w, res):
+    if not res[0]:
+        return True, "not a verified module"
+    why = res[2] if w.get("generic") else res[1]
+    return (not why), why
